@@ -31,6 +31,9 @@ type TaintSpec struct {
 	StorageStruct func(n *types.Named) bool
 	// CleanAt: value v is known clean at the use instruction (path-dependent sanitisation)
 	CleanAt func(v ssa.Value, use ssa.Instruction) bool
+	// ElemMay: an element read from a list may hold a tainted object (default: elements of containers are
+	// clean, every store into one being a checked sink)
+	ElemMay func(ia *ssa.IndexAddr) bool
 }
 
 type originSet struct {
@@ -196,6 +199,9 @@ func (t *Taint) loadMay(addr ssa.Value, seen map[ssa.Value]bool) bool {
 		}
 	case *ssa.IndexAddr:
 		// elements of containers are assumed clean: every store into one is a checked sink
+		if t.spec.ElemMay != nil && t.spec.ElemMay(a) {
+			return true
+		}
 		return false
 	case *ssa.Alloc:
 		for _, ref := range *a.Referrers() {
